@@ -370,8 +370,7 @@ Fixpoint dedup_last (l:list (positive * list nat)) : list (positive * list nat) 
       (k, match find (fun kv => Pos.eqb (fst kv) k) (rev t') with Some kv => snd kv | None => v end) :: filter (fun kv => negb (Pos.eqb (fst kv) k)) t'
     else (k,v)::t' end.
 Definition check_choices_intelligently (fuel:nat) (self:id) (newel:option (eid*positive)) : M (option id) :=
-  sn <- get self ;;
-  (if n_pxe sn then print_out else ret tt) ;;;
+  (* the debug print that stood here was removed from the code by the fix: commit recorded in known_findings.json *)
   lv <- iterate_leaves fuel self ;; lns <- mapM get lv ;;
   let lvn := combine lv lns in
   let same_next (nm:positive) : list nat :=
